@@ -953,6 +953,7 @@ fn judge_reader(case: &ReaderCase, acc: &mut Acc) -> Option<Violation> {
         }
     }
     let n_expected = ref_cmds.len();
+    let has_tail = case.truncated_tail.is_some() && !case.commands.is_empty();
     let seed = case.seed;
     let mut mismatch: Option<Violation> = None;
     let mut n_read = 0usize;
@@ -971,7 +972,19 @@ fn judge_reader(case: &ReaderCase, acc: &mut Acc) -> Option<Violation> {
         loop {
             let cmd = match patronus::smt::read_command(&mut inp, &mut ctx, &mut st) {
                 Ok(Some(c)) => c,
-                Ok(None) => break,
+                Ok(None) => {
+                    if n_read >= n_expected && has_tail {
+                        // the stream ends inside a command: that is malformed text, not a
+                        // clean end of file
+                        mismatch = Some(viol(
+                            "C14/c",
+                            "TruncatedCommandDropped",
+                            "read_command",
+                            "read_command reported a clean end of file (Ok(None)) although the stream ends in the middle of a command".to_string(),
+                        ));
+                    }
+                    break;
+                }
                 Err(e) => {
                     if n_read >= n_expected {
                         // error on the truncated tail: fine
